@@ -7,6 +7,8 @@ AST (tuples):
   expr: ('undef',) ('num',n) ('var',x) ('arg',i) ('fun',f) ('thenable',f) ('getter',f) ('obj',)
         ('resolve',e) ('reject',e) ('new',f) ('then',p,f,r) ('catch',p,r) ('finally',p,f)
         ('comb',kind,[e]) ('call',f,a) ('next',rk,g,a) with rk in 'next' | 'return' | 'throw'
+        ('subresolve',e) ('subnew',f) ('patch',('get',l,m),e) ('patch',('data',c),e)   (m: 0 Promise, 1 Other, 2 throw;
+        c: 0 Promise, 1 Sub, 2 Other, 3 undefined, 4 the number 5)
   stmt: ('print',l,e) ('let',x,e) ('expr',e) ('return',e) ('throw',e) ('await',x,e) ('yield',x,e) ('yieldstar',x,e)
         ('forawait',x,git,e,[stmt])   (git: a variable only the model uses, to hold the iterator)
         ('try',[stmt],x,[stmt]) ('hang',)
@@ -21,7 +23,13 @@ PRELUDE = (
     'if (Array.isArray(v)) return "[" + v.map(show).join(",") + "]"; '
     'if (v instanceof Error) return v.name + (v.errors ? show(v.errors) : ""); '
     'if (Object.prototype.hasOwnProperty.call(v, "status")) return v.status + ":" + show(v.status === "fulfilled" ? v.value : v.reason); '
-    'return v.k; }\n')
+    'return v.k; }\n'
+    'class Sub extends Promise {}\n'
+    'function Other() {}\n'
+    'function pg(p, l, m) { Object.defineProperty(p, "constructor", { configurable: true, get() { print("L" + l + " undefined"); '
+    'if (m === 2) throw 41; return m === 0 ? Promise : Other; } }); return p; }\n'
+    'function pd(p, m) { Object.defineProperty(p, "constructor", { configurable: true, writable: true, '
+    'value: [Promise, Sub, Other, undefined, 5][m] }); return p; }\n')
 
 FKIND_JS = {'sync': 'function', 'async': 'async function', 'agen': 'async function*'}
 FKIND_COQ = {'sync': 'FSync', 'async': 'FAsync', 'agen': 'FAsyncGen'}
@@ -76,6 +84,14 @@ def e_js(e):
         return '(%s)(%s)' % (e_js(e[1]), e_js(e[2]))
     if t == 'next':
         return '(%s).%s(%s)' % (e_js(e[2]), e[1], e_js(e[3]))
+    if t == 'subresolve':
+        return 'Sub.resolve(%s)' % e_js(e[1])
+    if t == 'subnew':
+        return 'new Sub(f%d)' % e[1]
+    if t == 'patch':
+        if e[1][0] == 'get':
+            return 'pg(%s, %d, %d)' % (e_js(e[2]), e[1][1], e[1][2])
+        return 'pd(%s, %d)' % (e_js(e[2]), e[1][1])
     raise ValueError(e)
 
 
@@ -165,6 +181,16 @@ def e_coq(e):
         return '(ECall %s %s)' % (e_coq(e[1]), e_coq(e[2]))
     if t == 'next':
         return '(ENext %s %s %s)' % (RK_COQ[e[1]], e_coq(e[2]), e_coq(e[3]))
+    if t == 'subresolve':
+        return '(ESubResolve %s)' % e_coq(e[1])
+    if t == 'subnew':
+        return '(ESubNew %d)' % e[1]
+    if t == 'patch':
+        if e[1][0] == 'get':
+            pt = '(PatGet %d %s)' % (e[1][1], ('GProm', 'GOther', 'GThrow')[e[1][2]])
+        else:
+            pt = '(PatData %s)' % ('CtPromise', 'CtSub', 'CtOther', 'CtUndef', 'CtNum')[e[1][1]]
+        return '(EPatch %s %s)' % (pt, e_coq(e[2]))
     raise ValueError(e)
 
 
@@ -265,7 +291,7 @@ class Gen:
         if self.proms:
             opts.append((3, 'pvar'))
         if deep and self.depth < 3 and self.room():
-            opts += [(2, 'thenable'), (1, 'presolve'), (1, 'preject'), (0.5, 'getter'), (0.5, 'obj')]
+            opts += [(2, 'thenable'), (1, 'presolve'), (1, 'preject'), (0.5, 'getter'), (0.5, 'obj'), (1.6, 'exotic')]
             if self.asyncs:
                 opts.append((1, 'acall'))
         k = self.pick(opts)
@@ -285,6 +311,8 @@ class Gen:
             return ('getter', self.getter_fn())
         if k == 'obj':
             return ('obj',)
+        if k == 'exotic':
+            return self.exotic()
         if k == 'presolve':
             return ('resolve', self.val(infun, deep=False))
         if k == 'preject':
@@ -562,7 +590,44 @@ class Gen:
 
     # -- promise expressions
     def prom_expr(self, infun=False):
-        opts = [(3, 'resolve'), (1.5, 'reject'), (2, 'new')]
+        """a native-promise expression; about a quarter get a non-standard `constructor` (PromiseResolve and
+        SpeciesConstructor read it: in await, yield, return, Promise.resolve, then / finally, the combinators, thenable jobs)"""
+        e = self.prom_expr0(infun)
+        if self.r.random() < 0.27 and self.room():
+            k = self.pick([(3, ('get', 0)), (2.5, ('get', 1)), (0.6, ('get', 2)), (1, ('data', 0)), (0.7, ('data', 1)),
+                           (1.5, ('data', 2)), (1, ('data', 3)), (0.5, ('data', 4))])
+            if k[0] == 'get':
+                self.feat.add('ctor-getter')
+                self.feat.add('ctor-getter-' + ('promise', 'other', 'throws')[k[1]])
+                e = ('patch', ('get', self.label(), k[1]), e)
+            else:
+                self.feat.add('ctor-data')
+                self.feat.add('ctor-data-' + ('promise', 'sub', 'other', 'undefined', 'number')[k[1]])
+                e = ('patch', k, e)
+        return e
+
+    def exotic(self):
+        """a settled promise whose `constructor` is not the plain %Promise% lookup: Sub instance and / or own property"""
+        n = ('num', self.r.randrange(100))
+        base = self.pick([(3, ('resolve', n)), (2, ('subresolve', n)), (1, ('reject', n))])
+        if base[0] == 'subresolve':
+            self.feat.add('promise-subclass')
+        if base[0] == 'reject':
+            self.feat.add('reject')
+        if base[0] != 'subresolve' or self.r.random() < 0.4:
+            k = self.pick([(3, ('get', 0)), (2.5, ('get', 1)), (0.5, ('get', 2)), (0.7, ('data', 0)), (0.7, ('data', 1)),
+                           (1.5, ('data', 2)), (1, ('data', 3)), (0.4, ('data', 4))])
+            if k[0] == 'get':
+                self.feat.add('ctor-getter')
+                self.feat.add('ctor-getter-' + ('promise', 'other', 'throws')[k[1]])
+                return ('patch', ('get', self.label(), k[1]), base)
+            self.feat.add('ctor-data')
+            self.feat.add('ctor-data-' + ('promise', 'sub', 'other', 'undefined', 'number')[k[1]])
+            return ('patch', k, base)
+        return base
+
+    def prom_expr0(self, infun=False):
+        opts = [(3, 'resolve'), (1.5, 'reject'), (2, 'new'), (1.3, 'subresolve'), (0.7, 'subnew')]
         if self.proms:
             opts.append((4, 'var'))
         if self.asyncs:
@@ -572,6 +637,12 @@ class Gen:
         if self.depth < 2 and self.room():
             opts.append((1.5, 'comb'))
         k = self.pick(opts)
+        if k == 'subresolve':
+            self.feat.add('promise-subclass')
+            return ('subresolve', self.val(infun))
+        if k == 'subnew':
+            self.feat.add('promise-subclass')
+            return ('subnew', self.executor())
         if k == 'gnext':
             return self.gen_request(infun)
         if k == 'resolve':
